@@ -18,5 +18,6 @@ CONSTANTS
   Dev = {"BroadcastSkipsSender"}
 INIT Init
 NEXT Next
+VIEW MCView
 INVARIANTS DeliveryInvs
 CHECK_DEADLOCK FALSE
